@@ -196,6 +196,7 @@ Not decided: that every mentioned name is declared or imported (program dependen
 
     shapes(m, ctx);
     imports(m, ctx);
+    values(m, ctx);
     categories(m, ctx, &ts);
 }
 
@@ -269,6 +270,45 @@ fn imports(m: &Model, ctx: &mut Ctx) {
             }
             Ok(o) => ctx.fail_closed("C18.imports", &format!("[{}]: condition evaluated to {}", name, o.show())),
             Err(e) => ctx.fail_closed("C18.imports", &format!("[{}]: {}", name, e)),
+        }
+    }
+}
+
+/// C18.values: list and structure values are rendered with balanced brackets for every length, including the empty
+/// list (value_to_tokens is evaluated on lists of 0, 1 and 3 elements, nested lists, and through LinkedNestedValue).
+fn values(m: &Model, ctx: &mut Ctx) {
+    let Some(f) = m.fns.iter().find(|f| f.name == "value_to_tokens" && f.module.starts_with("generator::typescript")) else {
+        ctx.fail_closed("C18.values", "anchor not found: typescript::utils::value_to_tokens");
+        return;
+    };
+    ctx.func(&f.key);
+    let consts = const_resolver(m);
+    let inl = inline_all(m, &[]);
+    let ev = Evaluator { consts: &consts, call_hook: &crate::eval::no_hook, inline: Some(&inl) };
+    let p = f.sig.inputs.iter().filter_map(|a| match a { syn::FnArg::Typed(t) => Some(tok(&t.pat)), _ => None }).next().unwrap_or("value".into());
+    let int = |i: i128| Val::Ctor("Integer".into(), vec![Val::int(i)], BTreeMap::new());
+    let list = |v: Vec<Val>| Val::Ctor("LinkedArrayLikeValue".into(), vec![Val::List(v)], BTreeMap::new());
+    let cases: Vec<(&str, Val, &str)> = vec![
+        ("empty list {}", list(vec![]), "[]"),
+        ("list of one", list(vec![int(7)]), "[7]"),
+        ("list of three", list(vec![int(1), int(2), int(3)]), "[1,2,3]"),
+        ("list of lists", list(vec![list(vec![]), list(vec![int(1)])]), "[[],[1]]"),
+        ("boolean", Val::Ctor("Boolean".into(), vec![Val::Bool(true)], BTreeMap::new()), "true"),
+    ];
+    for (what, v, want) in cases {
+        ctx.oblige("C18.values", what, true);
+        let mut env = Env::new();
+        env.insert(p.clone(), v);
+        match ev.eval_fn_body(&f.block, &mut env) {
+            Ok(Val::Ctor(ok, pl, _)) if ok == "Ok" => {
+                let got = match pl.first() { Some(Val::Str(s)) => s.chars().filter(|c| !c.is_whitespace()).collect::<String>(), Some(o) => o.show(), None => "?".into() };
+                if got != want {
+                    ctx.violate("C18.values", &format!("list-brackets:{}", what.replace(' ', "-")), &f.file, f.line,
+                        &format!("the value `{}` is rendered `{}`, expected `{}`: brackets must balance for every list length", what, got, want));
+                }
+            }
+            Ok(o) => ctx.fail_closed("C18.values", &format!("[{}]: {}", what, o.show().chars().take(120).collect::<String>())),
+            Err(e) => ctx.fail_closed("C18.values", &format!("[{}]: {}", what, e)),
         }
     }
 }
